@@ -36,7 +36,7 @@ func DumpIDL(ast *parser.Thrift) (string, error) {
 	var sb stringBuilder
 
 	for _, include := range ast.Includes {
-		sb.writeString(fmt.Sprintf("include %s\n", strings.ReplaceAll(joinQuotes(include.Path), `"`, "##34;")))
+		sb.writeString(fmt.Sprintf("include %s\n", quoteLiteral(include.Path)))
 	}
 
 	if len(ast.Includes) > 0 {
@@ -54,7 +54,7 @@ func DumpIDL(ast *parser.Thrift) (string, error) {
 	}
 
 	for _, include := range ast.CppIncludes {
-		sb.writeString(fmt.Sprintf("cpp_include %s\n", strings.ReplaceAll(joinQuotes(include), `"`, "##34;")))
+		sb.writeString(fmt.Sprintf("cpp_include %s\n", quoteLiteral(include)))
 	}
 
 	if len(ast.CppIncludes) > 0 {
@@ -196,14 +196,7 @@ func DumpIDL(ast *parser.Thrift) (string, error) {
 		sb.writeString("\n\n")
 	}
 
-	escapedString := sb.String()
-	// 把 " 替换为 \"
-	escapedString = strings.Replace(escapedString, "##34;", `\"`, -1)
-	// 如果本身就有 \"，上面的情况就会变成 \\"，给转回 \"
-	escapedString = strings.Replace(escapedString, `\\"`, `\"`, -1)
-	// tag 的前后符号统一采用 "
-	outString := strings.Replace(escapedString, "#OUTQUOTES", "\"", -1)
-	return html.UnescapeString(outString), nil
+	return sb.String(), nil
 }
 
 func typeName(t *parser.Type) string {
@@ -215,7 +208,7 @@ func typeName(t *parser.Type) string {
 	// cpp_type follows the container keyword of map and set, and the closing '>' of list
 	cppType := ""
 	if t.CppType != "" {
-		cppType = " cpp_type " + strings.ReplaceAll(joinQuotes(t.CppType), `"`, "##34;")
+		cppType = " cpp_type " + quoteLiteral(t.CppType)
 	}
 	if t.KeyType != nil && t.ValueType != nil {
 		name = fmt.Sprintf("%s%s<%s,%s>", t.Name, cppType, typeName(t.KeyType), typeName(t.ValueType))
@@ -228,8 +221,7 @@ func typeName(t *parser.Type) string {
 	}
 
 	if t.Annotations != nil {
-		// the caller passes the result to writeString, which escapes '&': do not escape here as well
-		sb := stringBuilder{raw: true}
+		var sb stringBuilder
 		printAnnotation(&sb, t.Annotations)
 		name = name + sb.String()
 	}
@@ -238,14 +230,9 @@ func typeName(t *parser.Type) string {
 
 type stringBuilder struct {
 	buffer strings.Builder
-	raw    bool // true: write the text as it is
 }
 
 func (s *stringBuilder) writeString(str string) {
-	if !s.raw && strings.Contains(str, "&") {
-		// 将 & 转义为 &amp;
-		str = strings.ReplaceAll(str, "&", "&amp;")
-	}
 	s.buffer.WriteString(str)
 }
 
@@ -253,13 +240,33 @@ func (s *stringBuilder) String() string {
 	return s.buffer.String()
 }
 
-func joinQuotes(s string) string {
-	return fmt.Sprintf("%s", "#OUTQUOTES"+s+"#OUTQUOTES")
+// oddBackslashesBefore reports whether v has a quote q preceded by an odd number of backslashes.
+// The parser (pegText) keeps a pair of backslashes as it is and drops one backslash in front of the
+// enclosing quote, so such a value cannot be written between q...q.
+func oddBackslashesBefore(v string, q byte) bool {
+	odd := false
+	for i := 0; i < len(v); i++ {
+		switch v[i] {
+		case '\\':
+			odd = !odd
+		case q:
+			if odd {
+				return true
+			}
+		default:
+			odd = false
+		}
+	}
+	return false
 }
 
-func replaceQuotes(s string) string {
-	out := strings.Replace(s, "\"", "#OUTQUOTES", -1)
-	return out
+// quoteLiteral writes v as a literal that the parser reads back as v: between double quotes with every
+// '"' written as \", or, when that is impossible, between single quotes with every "'" written as \'.
+func quoteLiteral(v string) string {
+	if oddBackslashesBefore(v, '"') {
+		return "'" + strings.ReplaceAll(v, "'", `\'`) + "'"
+	}
+	return `"` + strings.ReplaceAll(v, `"`, `\"`) + `"`
 }
 
 func printAnnotation(sb *stringBuilder, a parser.Annotations) {
@@ -269,9 +276,7 @@ func printAnnotation(sb *stringBuilder, a parser.Annotations) {
 	sb.writeString("(")
 	for i, anno := range a {
 		for ii, v := range anno.Values {
-			val := strings.ReplaceAll(joinQuotes(v), `"`, "##34;")
-
-			sb.writeString(fmt.Sprintf("%s = %s", anno.Key, val))
+			sb.writeString(fmt.Sprintf("%s = %s", anno.Key, quoteLiteral(v)))
 			if i != len(a)-1 || ii != len(anno.Values)-1 {
 				sb.writeString(", ")
 			}
@@ -282,7 +287,7 @@ func printAnnotation(sb *stringBuilder, a parser.Annotations) {
 
 func printComment(sb *stringBuilder, comment, prefix string) {
 	if len(strings.TrimSpace(comment)) > 0 {
-		sb.writeString(prefix + replaceQuotes(comment) + "\n")
+		sb.writeString(prefix + comment + "\n")
 	}
 }
 
@@ -325,9 +330,7 @@ func printConstTypedValue(sb *stringBuilder, ctv *parser.ConstTypedValue) {
 	} else if ctv.Int != nil {
 		sb.writeString(fmt.Sprintf("%d", *ctv.Int))
 	} else if ctv.Literal != nil {
-		val := *ctv.Literal
-		val = strings.ReplaceAll(joinQuotes(val), `"`, "##34;")
-		sb.writeString(fmt.Sprintf("%s", val))
+		sb.writeString(quoteLiteral(*ctv.Literal))
 	} else if ctv.Identifier != nil {
 		sb.writeString(fmt.Sprintf("%s", *ctv.Identifier))
 	} else if ctv.IsSetList() {
